@@ -142,6 +142,7 @@ def _worker(job):
         prob = Problem(job["name"], seed=seed, timeout_ms=opts.get("timeout_ms", 60000),
                        assume_prob_clamp=opts.get("assume_prob_clamp", False),
                        env_range=opts.get("env_range", 1.5))
+        prob.var_ranges = [tuple(x) for x in opts.get("var_ranges", [])]
         G = Goals(B, prob)
         fn = _load_scenario(modname, fname)
         t1 = time.time()
